@@ -173,6 +173,15 @@ def stream_num(tier, seed):
         s = rng.choice(suffixes)
         add("u64", struct.pack("<Q", v) + s)
         add("read_u64", struct.pack("<Q", v) + s)
+    # trailing bytes as long as, and longer than, the value itself (a remainder computed from the wrong end or
+    # by chunking shows only then)
+    for entry, w in (("u8", 1), ("u16", 2), ("u32", 4), ("i32", 4), ("u64", 8),
+                     ("read_u8", 1), ("read_u16", 2), ("read_u32", 4), ("read_i32", 4), ("read_u64", 8)):
+        for k in range(12):
+            val = btc.rand_bytes(rng, w)
+            for extra in (w - 1, w, w + 1, 2 * w, 2 * w + 1, 3 * w + 2):
+                if extra > 0:
+                    add(entry, val + bytes(range(0x41, 0x41 + extra)))
     # shorter-than-width inputs
     for entry, w in (("u8", 1), ("u16", 2), ("u32", 4), ("i32", 4), ("u64", 8),
                      ("read_u8", 1), ("read_u16", 2), ("read_u32", 4), ("read_i32", 4), ("read_u64", 8)):
